@@ -332,13 +332,31 @@ type config struct {
 	scopes    []string
 	auth      string
 	extra     [][2]string
-	style     oauth2.AuthStyle
+	// extraTyped[i]: extra[i] is passed through the option's own constructor
+	// (rp.WithResponseModeURLParam / rp.WithPromptURLParam) instead of rp.WithURLParam
+	extraTyped []bool
+	style      oauth2.AuthStyle
+	// round 11 (ext.go): options every CookieHandler of the option list is built with,
+	// verifier options (passed as rp.WithVerifierOpts), UserinfoCallback wrapper
+	chOpts []chOpt
+	vopts  []vOpt
+	hasVO  bool
+	wrap   bool
 }
+
+func (c config) typed(i int) bool { return i < len(c.extraTyped) && c.extraTyped[i] }
 
 func (c config) coq() string {
 	var ex, os []string
-	for _, kv := range c.extra {
-		ex = append(ex, emit.Pair(emit.Str(kv[0]), emit.Str(kv[1])))
+	for i, kv := range c.extra {
+		switch {
+		case c.typed(i) && kv[0] == "response_mode":
+			ex = append(ex, emit.Ctor("UResponseMode", emit.Str(kv[1])))
+		case c.typed(i) && kv[0] == "prompt":
+			ex = append(ex, emit.Ctor("UPrompt", emit.StrList(promptList(kv[1]))))
+		default:
+			ex = append(ex, emit.Ctor("UParam", emit.Str(kv[0]), emit.Str(kv[1])))
+		}
 	}
 	for _, o := range c.opts {
 		os = append(os, o.coq())
@@ -351,7 +369,15 @@ func (c config) coq() string {
 			c.doc.optList("token_endpoint_auth_methods_supported")))
 	}
 	return emit.Ctor("Setup", ctor, emit.List(os), emit.Str(c.client),
-		emit.Str(c.redirect), emit.StrList(c.scopes), emit.List(ex))
+		emit.Str(c.redirect), emit.StrList(c.scopes), emit.Ctor("extras", emit.List(ex)))
+}
+
+// promptList: the arguments of rp.WithPromptURLParam whose rendering is v
+func promptList(v string) []string {
+	if v == "" {
+		return nil
+	}
+	return strings.Split(v, " ")
 }
 
 type tokreq struct {
@@ -374,6 +400,9 @@ type fakeRT struct {
 	client string
 	signer jose.Signer
 	jwks   []byte
+	// round 11: what the provider answers in a kind=tail case (nil otherwise)
+	tail   *tailSpec
+	uiReqs []string // authorization headers of the userinfo requests
 }
 
 func httpResp(req *http.Request, status int, payload string) *http.Response {
@@ -385,6 +414,10 @@ func (f *fakeRT) RoundTrip(req *http.Request) (*http.Response, error) {
 	// the OP's other endpoints (reached only by the API calls between the logins)
 	switch {
 	case strings.HasSuffix(req.URL.Path, "/userinfo"):
+		if f.tail != nil {
+			f.uiReqs = append(f.uiReqs, req.Header.Get("authorization"))
+			return httpResp(req, f.tail.uiStatus, f.tail.uiBody), nil
+		}
 		return httpResp(req, 200, `{"sub":"user-1","name":"User One"}`), nil
 	case strings.HasSuffix(req.URL.Path, "/revoke"):
 		return httpResp(req, 200, `{}`), nil
@@ -431,10 +464,25 @@ func (f *fakeRT) RoundTrip(req *http.Request) (*http.Response, error) {
 		return httpResp(req, 400, `{"error":"invalid_grant"}`), nil
 	}
 	payload := map[string]any{"access_token": "at", "token_type": "Bearer", "expires_in": 3600}
-	if f.doc != nil && !f.dropID {
+	if f.tail != nil {
+		payload["access_token"], payload["token_type"] = f.tail.access, f.tail.ttype
+	}
+	if f.doc != nil && !f.dropID && (f.tail == nil || !f.tail.noID) {
 		now := time.Now()
-		claims, _ := json.Marshal(map[string]any{"iss": f.doc.issuer, "sub": "user-1", "aud": []string{f.client},
-			"exp": now.Add(time.Hour).Unix(), "iat": now.Unix(), "auth_time": now.Unix()})
+		cl := map[string]any{"iss": f.doc.issuer, "sub": "user-1", "aud": []string{f.client},
+			"exp": now.Add(time.Hour).Unix(), "iat": now.Unix(), "auth_time": now.Unix()}
+		if t := f.tail; t != nil {
+			cl["sub"], cl["exp"] = t.sub, now.Unix()+t.expIn
+			delete(cl, "iat")
+			delete(cl, "auth_time")
+			if t.iatAge != nil {
+				cl["iat"] = now.Unix() - *t.iatAge
+			}
+			if t.authAge != nil {
+				cl["auth_time"] = now.Unix() - *t.authAge
+			}
+		}
+		claims, _ := json.Marshal(cl)
 		if sig, err := f.signer.Sign(claims); err == nil {
 			if tok, err := sig.CompactSerialize(); err == nil {
 				payload["id_token"] = tok
@@ -470,6 +518,7 @@ type party struct {
 	states []string // what stateFn returns, in call order
 	nest   func()   // pending re-entrant login, run while the current login evaluates its URL options
 	called []string // handlers that ran, as Coq terms
+	info   *string  // UserinfoCallback: the subject of the userinfo handed to the application
 	rp     rp.RelyingParty
 	// the scopes slice handed to the constructor: the driver's OWN copy (cfg.scopes stays the
 	// ground truth of what was configured), with spare capacity, compared after every API call
@@ -485,9 +534,9 @@ func newParty(w *world, cfg config, pemKey []byte, ok opKeys) (*party, error) {
 	for _, o := range cfg.opts {
 		switch o.kind {
 		case "cookie":
-			opts = append(opts, rp.WithCookieHandler(httphelper.NewCookieHandler(w.keys[o.k][0], w.keys[o.k][1])))
+			opts = append(opts, rp.WithCookieHandler(httphelper.NewCookieHandler(w.keys[o.k][0], w.keys[o.k][1], goChOpts(cfg.chOpts)...)))
 		case "pkce":
-			opts = append(opts, rp.WithPKCE(httphelper.NewCookieHandler(w.keys[o.k][0], w.keys[o.k][1])))
+			opts = append(opts, rp.WithPKCE(httphelper.NewCookieHandler(w.keys[o.k][0], w.keys[o.k][1], goChOpts(cfg.chOpts)...)))
 		case "jwt":
 			opts = append(opts, rp.WithJWTProfile(rp.SignerFromKeyAndKeyID(pemKey, "kid1")))
 		default:
@@ -509,7 +558,11 @@ func newParty(w *world, cfg config, pemKey []byte, ok opKeys) (*party, error) {
 			case "WithCustomDiscoveryUrl":
 				opts = append(opts, rp.WithCustomDiscoveryUrl(cfg.doc.customURL))
 			case "WithVerifierOpts":
-				opts = append(opts, rp.WithVerifierOpts(rp.WithIssuedAtOffset(5*time.Second)))
+				if cfg.hasVO { // kind=tail: the verifier options are part of the input
+					opts = append(opts, rp.WithVerifierOpts(goVOpts(cfg.vopts)...))
+				} else {
+					opts = append(opts, rp.WithVerifierOpts(rp.WithIssuedAtOffset(5*time.Second)))
+				}
 			case "WithLogger":
 				opts = append(opts, rp.WithLogger(slog.New(slog.NewTextHandler(io.Discard, nil))))
 			}
@@ -531,8 +584,15 @@ func newParty(w *world, cfg config, pemKey []byte, ok opKeys) (*party, error) {
 	}
 	p.rp = party
 	var up []rp.URLParamOpt
-	for _, kv := range cfg.extra {
-		up = append(up, rp.WithURLParam(kv[0], kv[1]))
+	for i, kv := range cfg.extra {
+		switch {
+		case cfg.typed(i) && kv[0] == "response_mode":
+			up = append(up, rp.WithResponseModeURLParam(oidc.ResponseMode(kv[1])))
+		case cfg.typed(i) && kv[0] == "prompt":
+			up = append(up, rp.WithPromptURLParam(promptList(kv[1])...))
+		default:
+			up = append(up, rp.WithURLParam(kv[0], kv[1]))
+		}
 	}
 	// always present, contributes no parameter: when a nested login is pending it runs a
 	// complete second AuthURLHandler request on the same handler value before returning
@@ -559,6 +619,16 @@ func newParty(w *world, cfg config, pemKey []byte, ok opKeys) (*party, error) {
 	p.cb = rp.CodeExchangeHandler(func(_ http.ResponseWriter, _ *http.Request, _ *oidc.Tokens[*oidc.IDTokenClaims], state string, _ rp.RelyingParty) {
 		p.called = append(p.called, emit.Ctor("HApp", emit.Str(state)))
 	}, party, reentrant)
+	if cfg.wrap { // the application's callback wrapped in rp.UserinfoCallback
+		p.cb = rp.CodeExchangeHandler(rp.UserinfoCallback(func(_ http.ResponseWriter, _ *http.Request, _ *oidc.Tokens[*oidc.IDTokenClaims], state string, _ rp.RelyingParty, info *oidc.UserInfo) {
+			p.called = append(p.called, emit.Ctor("HApp", emit.Str(state)))
+			sub := "<nil userinfo>"
+			if info != nil {
+				sub = info.Subject
+			}
+			p.info = &sub
+		}), party, reentrant)
+	}
 	if cfg.sibling {
 		drv.Catch(func() { runSibling(w, cfg, ok) })
 	}
@@ -1231,6 +1301,18 @@ func genConfig(r drv.Rand, w *world, idx int) (config, []string) {
 		c.extra = [][2]string{drv.Pick(r, [][2]string{{"state", "forced"}, {"client_id", "other"}, {"scope", "all"}, {"redirect_uri", "https://x.example/"}})}
 	case 5:
 		c.extra = [][2]string{{"code_challenge", "mine"}, {"code_challenge_method", "plain"}}
+	case 6: // response_mode, also several times (the last one counts) and next to other options
+		c.extra = [][2]string{{"response_mode", drv.Pick(r, []string{"query", "fragment", "form_post", "", "query.jwt", "Form_Post"})}}
+		if r.Bool() {
+			c.extra = append(c.extra, drv.Pick(r, [][2]string{{"prompt", "none"}, {"prompt", "login consent"}, {"prompt", ""}, {"response_mode", "form_post"}, {"foo", "1"}}))
+		}
+		if r.Chance(1, 3) {
+			c.extra = append([][2]string{{"response_mode", "fragment"}}, c.extra...)
+		}
+	}
+	// response_mode / prompt: through the option's own constructor or through WithURLParam
+	for _, kv := range c.extra {
+		c.extraTyped = append(c.extraTyped, (kv[0] == "response_mode" || kv[0] == "prompt") && r.Chance(2, 3))
 	}
 	return c, nil
 }
@@ -1707,9 +1789,11 @@ func main() {
 		w.Add(emit.Case{Input: in, Observed: obs, Tags: tags,
 			Human: map[string]any{"config": fmt.Sprintf("%+v", c), "jar": j0.coq(), "steps": res.human}})
 	}
+	// round 11: cookie attributes / browser, and the callback's tail (ext.go)
+	extStats := runExtCases(cfg, r, w, pemKey, opk)
 	err = w.Close(emit.Meta{Property: "C17", Tier: cfg.Tier, Seed: cfg.Seed,
-		Rule: "each case = one way of building the RP + initial jar + history in one browser jar. Building the RP: constructor rp.NewRelyingPartyOAuth (5 of 9 cases) or rp.NewRelyingPartyOIDC against a mock OP (4 of 9; discovery document with code_challenge_methods_supported absent / null / [] / [S256] / [plain] / [plain,S256] / case and white-space variants of S256 / unknown methods (18 variants, cycled), scopes_supported absent / same / superset / subset / disjoint / upper-case / empty / null relative to the configured scopes, response types, grant types, token endpoint auth methods, response modes, unknown members; ID tokens signed by the mock OP, also token responses without id_token), the option list IN ORDER (WithPKCE / WithCookieHandler once or several times, earlier ones with a foreign CookieHandler, the last one with the RP's keys; WithJWTProfile and the neutral options at random positions), in 1 of 4 cases a second RP with the opposite PKCE setting built and used afterwards in the same process; client (also long / keyword-like), redirect URI, scopes (also 61 scopes, duplicates), URL options, auth style, cookie keys: hash key of 16/32/33/48/64/65/100 bytes, block key none/16/24/32. kind=pair: scripted jar (valid / other value / minted by a foreign CookieHandler whose keys are near misses of the RP's: differing tail behind a 64/32/16/8-byte prefix, prefix or extension of the hash key, same hash key with other block key, first byte, unrelated / other name / swapped / truncated / flipped / random / plaintext / missing / duplicate cookies) and one callback query; kind=ordering: every interleaving of 2 or 3 logins and their callbacks, cycled; kind=overlap: requests that run re-entrantly, on the same handler values, inside another request's option evaluation: login inside login (1st of 2, 2nd of 3, twice, after a finished flow), login+callback inside a callback, double-submitted callback, callback inside a login; states: short / empty / non-ASCII / 255-2000 bytes with shared prefixes / too long for the cookie; callback query shapes: state present / absent / empty / duplicated (same, different, first or last matching) / in the POST body vs the URL, with or without code and error; every 5th callback state is a near miss (prefix, suffix, case, Unicode case-folding partners, surrounding white space, trailing slash, one byte, cut at 64/128/255/256/257, tampered tail); every 8th code is empty / keyword-like / > 4 KiB; kind=history: random logins (some overlapped), callbacks (GET/POST, lost responses), deletions and unacceptable foreign cookie writes; kind=replay: histories that also re-insert older validly minted cookies. A third of ALL logins are requests that carry parameters of their own (OStartQ: code_challenge / code_challenge_method / state / client_id / redirect_uri / scope / response_type / nonce / prompt / login_hint / request / unknown names, case variants, repeated, several at once; URL query or POST form); the authorization URL must carry every protected parameter exactly once. In 2 of 5 cases of every kind 1-3 OTHER API calls on the same RP value (rp.ClientCredentials once / twice, RefreshTokens, Userinfo, EndSession, RevokeToken, DeviceAuthorization with the RP's own or other scopes, CodeExchange, GenerateAndStoreCodeChallenge, AuthURL with other options, JWT profile assertion; mock OP endpoints for all of them) are inserted before / between / after the browser's operations, each followed by rp.AuthURL(probe-state, rp), which must render the configured values; the RP gets the driver's own copy of the scopes slice (spare capacity 4), compared with the configured scopes after each call; scope lists with offline_access / openid at every position. Non-trivial = the model's path class != 0 (anything beyond 'no state cookie in the jar'); distinct = distinct (input, path).",
-		Extra: map[string]any{"orderings_2": len(ord2), "orderings_3": len(ord3), "ordering_cases": ordIdx, "dropped": dropped},
+		Rule: extRule + " ROUNDS 1-10: each case = one way of building the RP + initial jar + history in one browser jar. Building the RP: constructor rp.NewRelyingPartyOAuth (5 of 9 cases) or rp.NewRelyingPartyOIDC against a mock OP (4 of 9; discovery document with code_challenge_methods_supported absent / null / [] / [S256] / [plain] / [plain,S256] / case and white-space variants of S256 / unknown methods (18 variants, cycled), scopes_supported absent / same / superset / subset / disjoint / upper-case / empty / null relative to the configured scopes, response types, grant types, token endpoint auth methods, response modes, unknown members; ID tokens signed by the mock OP, also token responses without id_token), the option list IN ORDER (WithPKCE / WithCookieHandler once or several times, earlier ones with a foreign CookieHandler, the last one with the RP's keys; WithJWTProfile and the neutral options at random positions), in 1 of 4 cases a second RP with the opposite PKCE setting built and used afterwards in the same process; client (also long / keyword-like), redirect URI, scopes (also 61 scopes, duplicates), URL options, auth style, cookie keys: hash key of 16/32/33/48/64/65/100 bytes, block key none/16/24/32. kind=pair: scripted jar (valid / other value / minted by a foreign CookieHandler whose keys are near misses of the RP's: differing tail behind a 64/32/16/8-byte prefix, prefix or extension of the hash key, same hash key with other block key, first byte, unrelated / other name / swapped / truncated / flipped / random / plaintext / missing / duplicate cookies) and one callback query; kind=ordering: every interleaving of 2 or 3 logins and their callbacks, cycled; kind=overlap: requests that run re-entrantly, on the same handler values, inside another request's option evaluation: login inside login (1st of 2, 2nd of 3, twice, after a finished flow), login+callback inside a callback, double-submitted callback, callback inside a login; states: short / empty / non-ASCII / 255-2000 bytes with shared prefixes / too long for the cookie; callback query shapes: state present / absent / empty / duplicated (same, different, first or last matching) / in the POST body vs the URL, with or without code and error; every 5th callback state is a near miss (prefix, suffix, case, Unicode case-folding partners, surrounding white space, trailing slash, one byte, cut at 64/128/255/256/257, tampered tail); every 8th code is empty / keyword-like / > 4 KiB; kind=history: random logins (some overlapped), callbacks (GET/POST, lost responses), deletions and unacceptable foreign cookie writes; kind=replay: histories that also re-insert older validly minted cookies. A third of ALL logins are requests that carry parameters of their own (OStartQ: code_challenge / code_challenge_method / state / client_id / redirect_uri / scope / response_type / nonce / prompt / login_hint / request / unknown names, case variants, repeated, several at once; URL query or POST form); the authorization URL must carry every protected parameter exactly once. In 2 of 5 cases of every kind 1-3 OTHER API calls on the same RP value (rp.ClientCredentials once / twice, RefreshTokens, Userinfo, EndSession, RevokeToken, DeviceAuthorization with the RP's own or other scopes, CodeExchange, GenerateAndStoreCodeChallenge, AuthURL with other options, JWT profile assertion; mock OP endpoints for all of them) are inserted before / between / after the browser's operations, each followed by rp.AuthURL(probe-state, rp), which must render the configured values; the RP gets the driver's own copy of the scopes slice (spare capacity 4), compared with the configured scopes after each call; scope lists with offline_access / openid at every position. Non-trivial = the model's path class != 0 (anything beyond 'no state cookie in the jar'); distinct = distinct (input, path).",
+		Extra: map[string]any{"orderings_2": len(ord2), "orderings_3": len(ord3), "ordering_cases": ordIdx, "dropped": dropped, "ext": extStats},
 	})
 	if err != nil {
 		fmt.Fprintln(os.Stderr, err)
